@@ -27,11 +27,11 @@ ASSUMPTIONS = ["SQLAlchemy stores and returns column values unchanged except thr
 def OBLIGATION_FILTER(name):
     keep = ('trace.returns-what', 'trace.get-never-writes', 'trace.stored-fields', 'trace.attribute-reported',
             'post.column-value', 'bounded:', 'raises.', 'trace.reads-only', '/exploration', '/fragment', '/extract',
-            'trace.new-rows-only', 'trace.key-specific', 'trace.instances-keep', 'post.')
+            'trace.new-rows-only', 'trace.key-specific', 'trace.instances-keep', 'post.', 'fact:')
     return any(k in name for k in keep)
 
 
 def units(ctx):
-    from vf import bounded
+    from vf import bounded, facts
     us = contract_units("C05", MODULES, ctx, slices={'protocol-version': [4, 5]} if ctx["tier"] == "quick" else None)
-    return us + bounded.units(["usage_mask_type"], ctx)
+    return us + bounded.units(["usage_mask_type"], ctx) + facts.units(["exact_column_types"], ctx)
